@@ -190,6 +190,85 @@ def random_tol(rng):
     return 10 ** rng.uniform(-9, -1)
 
 
+# ---------------------------------------------------------------- equal values of different numeric types
+
+
+def typed_variants(a):
+    """(label, value of another numeric type, the double it denotes) for a finite double `a`"""
+    out = [("np.float64", np.float64(a), float(a))]
+    with np.errstate(all="ignore"):
+        f32 = np.float32(a)
+        if np.isfinite(f32):
+            out.append(("np.float32", f32, float(f32)))
+        f16 = np.float16(a)
+        if np.isfinite(f16):
+            out.append(("np.float16", f16, float(f16)))
+    out.append(("Fraction", Fraction(a), float(a)))
+    if a == int(a) and abs(a) < 2 ** 31:
+        out += [("int", int(a), float(a)), ("np.int64", np.int64(int(a)), float(a)),
+                ("np.int32", np.int32(int(a)), float(a))]
+        if a in (0.0, 1.0):
+            out.append(("bool", bool(a), float(a)))
+    return out
+
+
+# ---------------------------------------------------------------- aliasing of returned objects
+
+
+def scribble(lst, how):
+    """modify a returned list IN PLACE, as a careless caller might"""
+    if how == 0:
+        lst.append((1, 1))
+    elif how == 1:
+        lst.clear()
+    elif how == 2:
+        lst.reverse()
+        lst.append((255, 0))
+    elif how == 3 and lst:
+        lst.pop()
+    else:
+        lst.insert(0, (3, 2))
+
+
+def alias_check(a, tol, how, fb=None, axis="X"):
+    """call, scribble over the result, call again with the same arguments (the builder's call signature and the
+    positional / keyword variants, and through the builder): later results must equal the first one and must not
+    be the same object. Returns a list of failure descriptions."""
+    g = state_prep.get_angle_spec_from_float
+    bad = []
+    default = default_tol()
+    calls = [("g(angle=a, tol=tol)", lambda: g(angle=a, tol=tol)), ("g(a, tol)", lambda: g(a, tol)),
+             ("g(a, tol=tol)", lambda: g(a, tol=tol))]
+    if tol == default:
+        calls += [("g(angle=a)", lambda: g(angle=a)), ("g(a)", lambda: g(a))]
+    with np.errstate(all="ignore"):
+        for name, call in calls:
+            first = call()
+            ref = [tuple(p) for p in first]
+            scribble(first, how)
+            for name2, call2 in calls:
+                again = call2()
+                if [tuple(p) for p in again] != ref:
+                    bad.append("%s returns %r after a caller modified the list returned by %s (expected %r)"
+                               % (name2, again, name, ref))
+                    break
+                if again is first:
+                    bad.append("%s returned the very list object an earlier %s had returned" % (name2, name))
+                    break
+            if bad:
+                break
+        if fb is not None and tol == default and not bad:
+            first = g(angle=a)              # the call signature the builder uses
+            ref = [tuple(p) for p in first]
+            scribble(first, how)
+            kind, cmds = fb.emit(axis, a)
+            rots = [(c[3], c[4]) for c in cmds if c[0] == "rot"] if kind == "ok" else None
+            if rots != ref:
+                bad.append("q.rot_%s(angle=a) emits %r after a caller modified a list returned for the same angle "
+                           "(expected %r)" % (axis, rots, ref))
+    return bad
+
+
 # ---------------------------------------------------------------- builder path
 
 
